@@ -361,6 +361,15 @@ func evalDecoded(r *ev.Run, P props, st *enumStats, c *dcase) any {
 	}
 	if P.fields {
 		checkFields(r, c, obj)
+		// ... and still holds them after every query and (v3) after a report was built from it
+		// (round 4, C09-B-r4: report construction that writes the Modified metrics into the base)
+		for lv := c.level; lv >= 0; lv-- {
+			lib.Observe(lib.Sub(obj, lv))
+		}
+		if c.ver == 3 {
+			reportScoreText(obj, c.level)
+		}
+		checkFieldValues(r, c, obj, "after every query and a report built from the object")
 	}
 	if P.encode {
 		checkEncode(r, c, obj)
@@ -498,11 +507,23 @@ func canonicalWritten(ver, level int, verLabel string, tok map[string]string) st
 
 // checkFields: C09 — every exported field equals the written value; unwritten = Not Defined.
 func checkFields(r *ev.Run, c *dcase, obj any) {
+	checkFieldValues(r, c, obj, "")
+	checkFieldsRest(r, c, obj)
+}
+
+func checkFieldValues(r *ev.Run, c *dcase, obj any, when string) {
+	cm := func() map[string]any {
+		m := c.m()
+		if when != "" {
+			m["when"] = when
+		}
+		return m
+	}
 	for _, m := range spec.UpTo(c.ver, c.level) {
 		en := lib.EnumOf(c.ver, m.Name)
 		got, ok := lib.Field(obj, m.Name)
 		if !ok {
-			r.Violate(ev.Violation{Kind: "field-unreachable", Case: with(c.m(), "field", m.Name), Observed: "no such field", Expected: "exported field"})
+			r.Violate(ev.Violation{Kind: "field-unreachable", Case: with(cm(), "field", m.Name), Observed: "no such field", Expected: "exported field"})
 			continue
 		}
 		code, written := c.tok[m.Name]
@@ -516,13 +537,16 @@ func checkFields(r *ev.Run, c *dcase, obj any) {
 			continue // v2: group absent, checked through IsEmpty below
 		}
 		if got != want {
-			r.Violate(ev.Violation{Kind: "field-value", Case: with(c.m(), "field", m.Name), Observed: fmt.Sprintf("%d (prints %q)", got, en.Str(got)), Expected: fmt.Sprintf("%d (the constant for code %q)", want, code),
+			r.Violate(ev.Violation{Kind: "field-value", Case: with(cm(), "field", m.Name), Observed: fmt.Sprintf("%d (prints %q)", got, en.Str(got)), Expected: fmt.Sprintf("%d (the constant for code %q)", want, code),
 				GoTest: goTest(c, fmt.Sprintf("t.Log(m.%s) // want the constant for %q", m.Name, code))})
 		}
 		if written && en.Str(got) != code {
-			r.Violate(ev.Violation{Kind: "field-prints-other-code", Case: with(c.m(), "field", m.Name), Observed: en.Str(got), Expected: code})
+			r.Violate(ev.Violation{Kind: "field-prints-other-code", Case: with(cm(), "field", m.Name), Observed: en.Str(got), Expected: code})
 		}
 	}
+}
+
+func checkFieldsRest(r *ev.Run, c *dcase, obj any) {
 	if c.ver == 3 {
 		if lib.V3Ver(obj) != c.verLabel {
 			r.Violate(ev.Violation{Kind: "version-field", Case: c.m(), Observed: lib.V3Ver(obj), Expected: c.verLabel})
